@@ -3,7 +3,7 @@
 cnvlib/coverage.py, harness/extractors/exprs_covcols.py).
 
 Reading of the source (part of the trusted base)
-* a local bound ONCE by a plain top-level assignment is replaced by its defining expression wherever it is read (so a
+* a local bound ONCE in the whole function, by a plain assignment (at any depth), is replaced by its defining expression wherever it is read (so a
   renamed local reads the same); after that, every occurrence of the expression whose text is `key_text` (given by the
   extractor: the integer the function decides on) is the Lean parameter `key_name`; any other free name is Untranslatable;
 * the body is a chain of `if c: <raise | return>` / `elif` / `else` statements ending in a `return` or `raise`; expression
@@ -59,7 +59,7 @@ class Cols:
             if isinstance(n, ast.Name) and isinstance(n.ctx, ast.Store):
                 counts[n.id] = counts.get(n.id, 0) + 1
         self.once = {}
-        for s in fn.body:
+        for s in ast.walk(fn):
             if isinstance(s, ast.Assign) and len(s.targets) == 1 and isinstance(s.targets[0], ast.Name) \
                     and counts.get(s.targets[0].id) == 1:
                 self.once[s.targets[0].id] = s.value
